@@ -174,6 +174,47 @@ theorem eval_once_or_never (r : Regime) (level : Nat) (fs : List FieldD) :
     (enabledUnder r level = false → (invoke r level fs).2.all (· == 0) = true ∧ (invoke r level fs).1 = []) := by
   constructor <;> intro h <;> simp [invoke, h, List.all_replicate]
 
+/-! ### completeness: nothing set is left out, nothing is shown twice -/
+
+/-- **C10.every_set_field_visited** — for ANY list of field forms, every declared field that has a value (whatever its form
+and position, the message included) is presented to the visitor under its own name with its own method and value -/
+theorem every_set_field_visited (fs : List FieldD) (f : FieldD) (hf : f ∈ fs) (m v : String)
+    (hp : present f.val = some (m, v)) : (f.name, m, v) ∈ visited fs := by
+  simp only [visited, List.mem_filterMap]
+  refine ⟨f, ?_, by simp [hp]⟩
+  simp only [ordered, List.mem_append, List.mem_filter]
+  cases h : isMessage f.val
+  · exact Or.inr ⟨hf, by simp⟩
+  · exact Or.inl ⟨hf, rfl⟩
+
+private theorem partition_filter_length (p q : FieldD → Bool) (fs : List FieldD) :
+    ((fs.filter p ++ fs.filter (fun f => !p f)).filter q).length = (fs.filter q).length := by
+  simp only [List.filter_append, List.length_append]
+  induction fs with
+  | nil => rfl
+  | cons x xs ih =>
+    simp only [List.filter_cons]
+    cases hpx : p x <;> cases hqx : q x <;>
+      simp only [hqx, List.filter_cons, Bool.not_false, Bool.not_true, if_true, if_false, Bool.false_eq_true, List.length_cons] <;> omega
+
+private theorem filterMap_length_eq {α β : Type} (g : α → Option β) (l : List α) :
+    (l.filterMap g).length = (l.filter (fun a => (g a).isSome)).length := by
+  induction l with
+  | nil => rfl
+  | cons x xs ih =>
+    simp only [List.filterMap_cons, List.filter_cons]
+    cases h : g x <;> simp [ih]
+
+/-- **C10.visited_exactly_once** — the number of presentations equals the number of declared fields that have a value: with
+`every_set_field_visited` and `value_alignment`, each set field is presented exactly once and nothing else is -/
+theorem visited_exactly_once (fs : List FieldD) :
+    (visited fs).length = (fs.filter (fun f => (present f.val).isSome)).length := by
+  have h1 := filterMap_length_eq (fun f : FieldD => (present f.val).map fun (m, v) => (f.name, m, v)) (ordered fs)
+  simp only [Option.isSome_map] at h1
+  simp only [visited]
+  rw [h1]
+  exact partition_filter_length (fun f => isMessage f.val) (fun f => (present f.val).isSome) fs
+
 /-! ### non-vacuity -/
 example : typed_dispatch ("u8", "record_u64", "u64") (by decide) (by decide) false 255 (by decide) (by decide) =
     typed_dispatch ("u8", "record_u64", "u64") (by decide) (by decide) false 255 (by decide) (by decide) := rfl
